@@ -137,15 +137,17 @@ macro_rules! opt_or_else {
 macro_rules! opt_filter {
     ($e:expr, |$param:pat_param| $v:expr $(,)?) => {
         match $e {
-            $crate::__::Some(x)
+            $crate::__::Some(x) => {
                 if {
                     let $param = &x;
                     $v
-                } =>
-            {
-                $crate::__::Some(x)
+                } {
+                    $crate::__::Some(x)
+                } else {
+                    $crate::__::None
+                }
             }
-            _ => $crate::__::None,
+            $crate::__::None => $crate::__::None,
         }
     };
     ($opt:expr, | $($anything:tt)* ) => {
@@ -153,8 +155,14 @@ macro_rules! opt_filter {
     };
     ($e:expr, $function:path $(,)?) => {
         match $e {
-            $crate::__::Some(x) if $function(&x) => $crate::__::Some(x),
-            _ => $crate::__::None,
+            $crate::__::Some(x) => {
+                if $function(&x) {
+                    $crate::__::Some(x)
+                } else {
+                    $crate::__::None
+                }
+            }
+            $crate::__::None => $crate::__::None,
         }
     };
 }
